@@ -72,11 +72,11 @@ def _reducers():
 def plan(tier, seed):
     out = []
     nblk = 16
-    reps = 1 if tier == 'quick' else 3
+    reps = 1 if tier == 'quick' else 6
     for r in range(reps):
         out += [('enc3x3', '%d,%d' % (b, r)) for b in range(nblk)]
     out += [('encline', 0)]
-    n = 160 if tier == 'quick' else 1200
+    n = 160 if tier == 'quick' else 4000
     out += [('enc', i) for i in range(n * 4)]
     out += [('stats', i) for i in range(n)]
     out += [('mean', i) for i in range(n)]
